@@ -44,6 +44,7 @@ type zzvSpec struct {
 	name, parent string
 	isParent     bool
 	hasMin       bool
+	hasMax       bool
 	min, max     int64
 	ns           string // "" or a namespace bound through the annotation
 }
@@ -58,7 +59,10 @@ func (s zzvSpec) object() *v1alpha1.ElasticQuota {
 	if s.ns != "" {
 		q.Annotations[extension.AnnotationQuotaNamespaces] = "[\"" + s.ns + "\"]"
 	}
-	q.Spec.Max = corev1.ResourceList{corev1.ResourceCPU: *resource.NewQuantity(s.max, resource.DecimalSI)}
+	q.Spec.Max = corev1.ResourceList{}
+	if s.hasMax {
+		q.Spec.Max[corev1.ResourceCPU] = *resource.NewQuantity(s.max, resource.DecimalSI)
+	}
 	q.Spec.Min = corev1.ResourceList{}
 	if s.hasMin {
 		q.Spec.Min[corev1.ResourceCPU] = *resource.NewQuantity(s.min, resource.DecimalSI)
@@ -76,6 +80,7 @@ func zzvSymSpec(tag, name string, parents []string, B int64) zzvSpec {
 		parent:   parents[zzverif.Choice(tag+".parent", len(parents))],
 		isParent: zzverif.Choice(tag+".isParent", 2) == 1,
 		hasMin:   zzverif.Choice(tag+".hasMin", 2) == 1,
+		hasMax:   zzverif.Choice(tag+".noMax", zzverif.Param("maxModes")) == 0,
 		min:      zzverif.Int64(tag+".min", -1, B),
 		max:      zzverif.Int64(tag+".max", -1, B),
 		ns:       zzvNamespaces[zzverif.Choice(tag+".ns", zzverif.Param("namespaces"))],
@@ -252,8 +257,8 @@ func ZzvC15Step() {
 func ZzvC15Twin() {
 	B := int64(1) << 20
 	qt := NewQuotaTopology(&zzvClient{hasPods: map[string]bool{}})
-	a := zzvSpec{name: "A", parent: extension.RootQuotaName, isParent: true, hasMin: true, min: zzverif.Int64("A.min", 0, B), max: zzverif.Int64("A.max", 0, B)}
-	b := zzvSpec{name: "B", parent: "A", hasMin: true, min: zzverif.Int64("B.min", 0, B), max: zzverif.Int64("B.max", 0, B)}
+	a := zzvSpec{name: "A", parent: extension.RootQuotaName, isParent: true, hasMin: true, hasMax: true, min: zzverif.Int64("A.min", 0, B), max: zzverif.Int64("A.max", 0, B)}
+	b := zzvSpec{name: "B", parent: "A", hasMin: true, hasMax: true, min: zzverif.Int64("B.min", 0, B), max: zzverif.Int64("B.max", 0, B)}
 	zzverif.Assume(qt.ValidAddQuota(a.object()) == nil)
 	if qt.ValidAddQuota(b.object()) == nil {
 		zzverif.Assert(b.max <= a.max, "twin: child max <= parent max (false: only the mins are compared)")
